@@ -68,6 +68,10 @@ def _make_map(rng, din, dout, r, cls, cplx):
     elif cls == "hp":  # Hermiticity preserving, not CP: signs
         signs = [1 if i % 2 == 0 else -1 for i in range(r)]
         b_ops = [s * a for s, a in zip(signs, a_ops)]
+    elif cls == "near":
+        # left and right operators that agree up to a relative 1e-4 .. 1e-6 per entry: not a CP form, and sum_i A_i X B_i^dagger means the B_i that were given
+        eps = [1e-4, 1e-5, 3e-6, 1e-6][int(rng.integers(0, 4))]
+        b_ops = [a * (1 + eps * (rng.normal(size=a.shape) + (1j * rng.normal(size=a.shape) if cplx else 0))) for a in a_ops]
     else:
         b_ops = [gen.rmat(rng, (dout, din), cplx) for _ in range(r)]
     return a_ops, b_ops
@@ -78,7 +82,7 @@ def _run_map(ctx, spec, rng):
 
     din, dout = int(rng.integers(1, 5)), int(rng.integers(1, 5))
     r = int(rng.integers(1, din * dout + 1)) if rng.random() < 0.7 else int(rng.integers(1, 4))
-    cls = ["cp", "cp", "hp", "gen"][int(rng.integers(0, 4))]
+    cls = ["cp", "cp", "hp", "gen", "near"][int(rng.integers(0, 5))] if spec[1] % 9 != 8 else "near"
     cplx = bool(rng.integers(0, 2))
     a_ops, b_ops = _make_map(rng, din, dout, r, cls, cplx)
     if spec[1] % 7 == 4 and len(a_ops) >= 1:
@@ -89,7 +93,7 @@ def _run_map(ctx, spec, rng):
         a_ops = [k_ for i_, k_ in enumerate(a_ops) if i_ != t_] + [a_half, a_half]
         b_ops = a_ops if same else [k_ for i_, k_ in enumerate(b_ops) if i_ != t_] + [b_half, b_half]
         r = len(a_ops)
-    mag = [1.0, 1.0, 1e-3, 1.0, 1e3, 1.0][spec[1] % 6]  # operators scaled by mag: the map has magnitude mag^2
+    mag = [1.0, 1.0, 1e-3, 1.0, 1e3, 1.0, 1e-9, 1.0, 1e-6][spec[1] % 9]  # operators scaled by mag: the map has magnitude mag^2
     if mag != 1.0:
         same = b_ops is a_ops
         a_ops = [mag * a for a in a_ops]
@@ -137,9 +141,11 @@ def _run_map(ctx, spec, rng):
     # a Choi matrix that is not Hermitian but lies inside the library's Hermiticity tolerance (allclose, rtol 1e-5 / atol 1e-8) is treated as
     # Hermitian by choi_to_kraus: the anti-Hermitian part (at most that tolerance) may be dropped, and is admitted here
     asym = float(np.abs(j_ref - j_ref.conj().T).max())
-    ctk_tol = 1e-6
+    ctk_tol = act_tol = 1e-6
     if 0 < asym and bool(np.allclose(j_ref, j_ref.conj().T)):
         ctk_tol += 2 * asym / (_FLOOR[0] + float(np.abs(j_ref).max()))
+        # an entry of Phi(X) sums d_in^2 products x_ij J_(ik),(jl): each Choi entry may be off by the asymmetry
+        act_tol += 2 * asym * din * din * float(np.abs(x).max()) / (_FLOOR[0] + float(np.abs(want).max()))
     k_lib = ctx.call(choi_to_kraus, j_ref.copy(), dim=[din, dout]) if mag >= 1 else FAILED
     if k_lib is not FAILED:
         if len(k_lib) and isinstance(k_lib[0], (list, tuple)):
@@ -151,7 +157,7 @@ def _run_map(ctx, spec, rng):
         else:
             got = ref.apply_kraus(x, ka, kb)
             j_back = ref.choi_of(ka, kb, din)
-        ctx.check("O3:choi_to_kraus-action", None, dev=_rel(got, want), tol=ctk_tol, sig=(din, dout, cplx, cls, rk), nt=nt, mech="choi_to_kraus:action",
+        ctx.check("O3:choi_to_kraus-action", None, dev=_rel(got, want), tol=act_tol, sig=(din, dout, cplx, cls, rk), nt=nt, mech="choi_to_kraus:action",
                   detail={"din": din, "dout": dout, "r": r, "cls": cls})
         ctx.check("O3:choi_to_kraus-rebuilds", None, dev=_rel(j_back, j_ref), tol=ctk_tol, sig=(din, dout, cplx, cls, rk), nt=nt, mech="choi_to_kraus:rebuild",
                   detail={"din": din, "dout": dout, "r": r, "cls": cls})
@@ -166,7 +172,7 @@ def _run_map(ctx, spec, rng):
                     ctx.check("O4:chain", None, dev=_rel(j2, j_ref), tol=ctk_tol, sig=(din, dout, cls, 2), nt=nt, mech="chain:J''!=J", detail={"din": din, "dout": dout, "cls": cls})
                 y2 = ctx.call(apply_channel, x, k2)
                 if y2 is not FAILED:
-                    ctx.check("O4:chain-action", None, dev=_rel(y2, want), tol=ctk_tol, sig=(din, dout, cls), nt=nt, mech="chain:action", detail={"din": din, "dout": dout, "cls": cls})
+                    ctx.check("O4:chain-action", None, dev=_rel(y2, want), tol=act_tol, sig=(din, dout, cls), nt=nt, mech="chain:action", detail={"din": din, "dout": dout, "cls": cls})
     if cls == "cp":
         nat = ctx.call(natural_representation, list(a_ops))
         if nat is not FAILED:
@@ -235,9 +241,15 @@ def _run_partial(ctx, spec, rng):
     square_only = rng.random() < 0.5
     dout = din if square_only else int(rng.integers(1, 4))
     r = int(rng.integers(1, 4))
-    cls = ["cp", "cp", "gen"][int(rng.integers(0, 3))]
+    cls = ["cp", "cp", "gen", "near"][int(rng.integers(0, 4))]
     cplx = bool(rng.integers(0, 2))
     a_ops, b_ops = _make_map(rng, din, dout, r, cls, cplx)
+    mag = [1.0, 1e-9, 1.0, 1.0, 1e-5, 1e4][spec[1] % 6]  # operators scaled by mag: the map has magnitude mag^2
+    if mag != 1.0:
+        same = b_ops is a_ops
+        a_ops = [mag * a for a in a_ops]
+        b_ops = a_ops if same else [mag * b for b in b_ops]
+    _FLOOR[0] = mag ** 2
     big = int(np.prod(dims))
     x = gen.rc(rng, big, big)
     want = ref.partial_channel_kraus(x, a_ops, b_ops, dims, pos)
